@@ -126,7 +126,7 @@ def computed_value(op, values, with_, row):
     if op == 'sum':
         return sum(values)
     if not values:
-        raise Undefined('%s over zero non-null values' % op)
+        return None         # nothing to aggregate: null (like join's aggregates over an all-null group)
     if op == 'avg':
         return sum(values) / len(values)
     if op == 'min':
